@@ -94,7 +94,8 @@ def run_property(pid, tier="quick", seed=0, verbose=False):
             statics.append(StaticObligation(f"{pid}.{oid}", ok, where, lineno))
     timeout_ms = 60000 if tier == "thorough" else 30000
     reports, results, prove_s = prove(contracts, reg, REPO, timeout_ms=timeout_ms, statics=statics,
-                                      cvc5_all=(tier == "thorough" and spec.get("cvc5_all", False)))
+                                      cvc5_all=(tier == "thorough" and spec.get("cvc5_all", False)),
+                                      lemmas=spec.get("lemmas", []))
     lock = load_lock().get(pid, {})
     findings = [f for f in load_findings() if f["property"] == pid]
     known_keys = {f["key"]: f for f in findings}
@@ -246,7 +247,7 @@ def write_lock(pids):
         for fn in spec.get("statics", []):
             for (oid, ok, where, lineno) in fn(REPO):
                 statics.append(StaticObligation(f"{pid}.{oid}", ok, where, lineno))
-        reports, results, _ = prove(contracts, reg, REPO, timeout_ms=60000, statics=statics)
+        reports, results, _ = prove(contracts, reg, REPO, timeout_ms=60000, statics=statics, lemmas=spec.get("lemmas", []))
         entry = {}
         for d in results:
             if d["verdict"] == "discharged":
